@@ -191,6 +191,8 @@ def run(ck: Check, prog: Program) -> None:
     if not (isinstance(dd, ast.Constant) and dd.value is True and no_override):
         ck.finding('RELATE-STRICT', fj.qualname, 'duplicate response ids accepted', fj.module.rel, fj.node.lineno,
                    'a batch response that repeats an id must raise IdentityError: from_json must build the batch with strict=True')
+    # a repeated id is detected for every way responses enter the batch, and before the batch is modified
+    _c06._atomic_append(ck, prog, Interp(prog), only=(V20 + '.BatchResponse',))
     addf = prog.func(V20 + '.BatchResponse._add_ids')
     ck.functions.add(addf.qualname)
     dp = _c06.dup_check_problems(prog, addf)
